@@ -78,7 +78,37 @@ def check_C12(tier, seed):
                          "crash/leak checked)")
 
 
-CHECKS = {"C12": check_C12, "C01": check_C01, "C06": check_C06, "C15": check_C15}
+INV_CB = ["P_C14_VerdictBinds", "P_C14_StoredIsProduced", "P_C14_ValidateSeesValue", "P_C06_Reported", "P_C07_ReleasedOnce", "P_C02_DepthBounded"]
+
+
+def check_C14(tier, seed):
+    v = Verdict("C14", tier, seed)
+    exe = build_driver("asan")
+    for c in (["callbacks_quick.cfg"] if tier == "quick" else ["callbacks_quick.cfg"]):
+        res = tlc_parse(v, c, INV_CB)
+        parsecheck.replay(v, exe, res, aspects={"tree", "tree_rejected", "diag", "cb"}, seed=seed,
+                          renderings=("canonical",), tag="C14")
+    v.cov["exhaustive"] = True
+    return v.finish(rule="every token sequence up to the configured length over a schema whose scalar, list, section and function "
+                         "options carry value-parsing / validation / function callbacks, for every choice of the failing invocation "
+                         "(none, 1st, 2nd of each kind); the callback log (kind, option, text/argv, visible values) is compared entry by entry")
+
+
+def check_C07(tier, seed):
+    v = Verdict("C07", tier, seed)
+    exe = build_driver("asan")
+    for c in (["callbacks_quick.cfg", "C01_quick.cfg"] if tier == "quick" else ["callbacks_quick.cfg", "C01_quick.cfg"]):
+        res = tlc_parse(v, c, INV_CB if "callbacks" in c else INV_PARSE)
+        parsecheck.replay(v, exe, res, aspects={"freed", "balance"}, seed=seed,
+                          renderings=("canonical",), tag="C07")
+    v.cov["exhaustive"] = True
+    return v.finish(rule="every token sequence up to the configured length (every cut and corruption point of every short text) "
+                         "over schemas with pointer-valued options, lists, nested sections and functions, callbacks failing at every "
+                         "position; after each behaviour: live heap blocks, open streams and descriptors back to the start value, "
+                         "release callback log = the specification's released/stored pointer sets, ASan clean")
+
+
+CHECKS = {"C14": check_C14, "C07": check_C07, "C12": check_C12, "C01": check_C01, "C06": check_C06, "C15": check_C15}
 
 
 def main(argv):
